@@ -402,7 +402,7 @@ func c12Key(n c12node) string {
 func c12() *report.Check {
 	return &report.Check{
 		Level: "model_checking",
-		Rule:  "BFS over check-in / config-vote / block-seen / block-end histories on the real app for every (n,t) in the bound, fork on and off; ValidatorUpdates of every EndBlock folded over a reference Tendermint validator set and compared with an independently computed intended set; plus DiffPowermaps over all ordered pairs of power maps on a 3-key universe. Classes = kinds of block end (number of updates) and diff shapes",
+		Rule:  "BFS over check-in / config-vote / block-seen (also a lower report after a higher one) / block-end histories on the real app for every (n,t) in the bound, fork on and off; ValidatorUpdates of every EndBlock folded over a reference Tendermint validator set and compared with an independently computed intended set; plus DiffPowermaps over all ordered pairs of power maps on a 3-key universe. Classes = kinds of block end (number of updates) and diff shapes",
 		Assumptions: []string{
 			"Tendermint's update rules modelled from types.ValidatorSet.UpdateWithChangeSet: sorted by key, no duplicates, removals must exist, result non-empty",
 			"validator keys are the two deterministic ed25519 keys per participant; nobody checks in with the placeholder key",
